@@ -48,6 +48,7 @@ def fire(cell):
     ang, mv, alt, cfg, rng_yd, extra, tstep = cell[:7]
     wind = cell[7] if len(cell) > 7 else None
     look = cell[8] if len(cell) > 8 else 0.0
+    rec = pb.Unit.Foot(cell[9]) if len(cell) > 9 and cell[9] else U.Yard(100)        # recording step
     dm = pb.DragModel(0.223, pb.TableG7, U.Grain(168), U.Inch(0.308), U.Inch(1.282))
 
     def shot():
@@ -60,7 +61,7 @@ def fire(cell):
     calc = pb.Calculator(_config=dict(cfg)) if cfg else pb.Calculator()
     R = U.Yard(rng_yd)
     try:
-        hr = calc.fire(shot(), R, U.Yard(100), extra, tstep)
+        hr = calc.fire(shot(), R, rec, extra, tstep)
         rows = hr.trajectory
         kind = 'ok'
         if not rows[-1].distance.raw_value >= R.raw_value * (1 - 1e-9):
@@ -106,7 +107,7 @@ def fire(cell):
     other = {k: v for k, v in cfg.items() if k not in relaxed}
     c2 = pb.Calculator(_config={**other, **relaxed})
     try:
-        rows2 = c2.fire(shot(), R, U.Yard(100), extra, tstep).trajectory
+        rows2 = c2.fire(shot(), R, rec, extra, tstep).trajectory
     except pb.RangeError as e2:
         rows2 = e2.incomplete_trajectory
     k1 = [row_bits(r) for r in rows[:-1]]
@@ -148,6 +149,18 @@ def align(cell):
         for v in res.get('v', []):
             if len(out) < 3:
                 v['msg'] = f'range {R!r} ft ends in the step [{x0!r}, {x1!r}] that first violates a limit: ' + v['msg']
+                out.append(v)
+    # ... and a RECORD distance falls inside that step (range well beyond it): the last row must still be the point that violates the limit,
+    # not a row interpolated back to the record distance
+    xm = (x0 + x1) / 2
+    for k in (1, 2, 5):
+        if xm / k < 1.0:
+            continue
+        res = fire([ang, mv, 0.0, cfg, (x1 + 60.0) / 3.0, extra, 0.0, None, 0.0, xm / k])
+        n += res.get('n', 1)
+        for v in res.get('v', []):
+            if len(out) < 3:
+                v['msg'] = f'record distance {xm!r} ft ({k} x step) lies inside the step [{x0!r}, {x1!r}] that first violates a limit: ' + v['msg']
                 out.append(v)
     return {'v': out, 'n': n, 'nt': cell}
 
